@@ -1473,7 +1473,7 @@ where
         ensures //@
             final(deques).others_same(old(deques)), final(deques).write_order@ == old(deques).write_order@, //@
             old(entry).ao().is_none() ==> final(deques).probation@ == old(deques).probation@, //@ [C12]
-            old(entry).ao().is_some() ==> final(deques).probation@ == moved_to_back(old(deques).probation@, index_of_id(old(deques).probation@, old(entry).ao().unwrap())), //@ [C12]
+            old(entry).ao().is_some() ==> final(deques).probation@ == moved_to_back(old(deques).probation@, index_of_id(old(deques).probation@, old(entry).ao().unwrap())), //@ [C12,C13]
             final(entry).value == old(entry).value, final(entry).ao() == old(entry).ao(), final(entry).wo() == old(entry).wo(), //@ [C01]
             final(entry).w() == old(entry).w(), final(entry).tm() == old(entry).tm(), //@ [C05,C10]
             final(entry).ta() == (if ts.is_some() && old(entry).ao().is_some() { ts } else { old(entry).ta() }), //@ [C06]
@@ -1551,7 +1551,7 @@ where
             // the same, clause by clause (for attribution of a failure to the property it breaks)
             exists|mid: Self| #[trigger] Self::rel_hk(*old(self), mid) && Self::rel_get_answer(mid, kid(key), old(self).sp_ts(), r.is_some()), //@ [C01,C03,C05,C06,C07]
             exists|mid: Self| #[trigger] Self::rel_hk(*old(self), mid) && Self::rel_get_entries(mid, *final(self), kid(key), old(self).sp_ts(), r.is_some()), //@ [C01,C06,C07]
-            exists|mid: Self| #[trigger] Self::rel_hk(*old(self), mid) && Self::rel_get_order(mid, *final(self), kid(key), r.is_some()), //@ [C12]
+            exists|mid: Self| #[trigger] Self::rel_hk(*old(self), mid) && Self::rel_get_order(mid, *final(self), kid(key), r.is_some()), //@ [C12,C13]
             // nothing but the looked-up key changes, and of that key only the access time
             forall|k: KeyId| #[trigger] final(self).cache@.contains_key(k) ==> old(self).cache@.contains_key(k) //@ [C01,C05,C07,C10]
                 && final(self).cache@[k].value == old(self).cache@[k].value && final(self).cache@[k].w() == old(self).cache@[k].w() //@
@@ -1734,7 +1734,7 @@ where
             old(self).sp_has_expiry() ==> final(self).cache@[kid_rc(key)].ta() == timestamp, //@ [C06,C03]
             old(self).time_to_live.is_some() ==> final(self).cache@[kid_rc(key)].tm() == timestamp, //@ [C05,C03]
             // C12: the updated key becomes most recently used, nothing else moves
-            final(self).deques.probation@ == moved_to_back(old(self).deques.probation@, pos_of_key(old(self).deques.probation@, kid_rc(key))), //@ [C12]
+            final(self).deques.probation@ == moved_to_back(old(self).deques.probation@, pos_of_key(old(self).deques.probation@, kid_rc(key))), //@ [C12,C13]
             // C04/C10: weight bookkeeping
             final(self).weighted_size == old(self).weighted_size - old_entry.w() + policy_weight, //@ [C10,C04]
     {
